@@ -17,6 +17,7 @@ Definition P (k : N) (v : list N) : skey * svec := (k, zs v).
 Definition O (s t : N) (p : points) : sobs := (s, t, p).
 Definition KH (b : list N) : ikind := KHist (zs b).
 Definition KE (u : N) : ikind := KExpo (Z.of_N u).
+Definition KHN (b : list N) : ikind := KHistNS (zs b).
 
 Definition B (i c : N) : Z * Z := (zz i, Z.of_N c).
 Definition EP (k sc sum cnt zero : N) (pos neg : ebuckets) : epoint :=
